@@ -126,6 +126,89 @@ def post_run_structure(C):
     return [('renumbering-follows-every-removal', z3.Implies(xv.len(dl) > 0, z3.And(renumbered, removed == 1)))]
 
 
+def post_divider_structure(C):
+    """cell_divider::run on its own, up to the entry of the renumbering loop: the loop follows the removal and starts at position 0"""
+    g = C.post_state.ghost
+    removed = g.get('remove_index_calls', z3.IntVal(0))
+    if C.outcome == 'loop-entry':
+        return [('removal-precedes-the-renumbering', removed == 1),
+                ('renumbering-starts-at-the-first-position', val(C, 'local_cell_id', C.post_state) == 0)]
+    if C.outcome == 'ret':
+        return [('no-renumbering-only-if-nothing-was-removed', removed == 0)]
+    return []
+
+
+# ---- cell_divider::run from the removal to the end: POP-INV is re-established for the WHOLE list ------------------------------------------------------
+def setup_popinv(eng, st, args, this):
+    st.ghost['popinv'] = True
+
+
+def listed_once(view, lst, upto=None):
+    n_ = view.len(lst) if upto is None else upto
+    return QForall(lambda a, b: z3.Implies(z3.And(a >= 0, a < b, b < n_), view.at(lst, a, 'int') != view.at(lst, b, 'int')), 2, 'every cell is listed once')
+
+
+def all_non_null(view, lst):
+    return QForall(lambda a: z3.Implies(z3.And(a >= 0, a < view.len(lst)), view.at(lst, a, 'int') > 0), 1, 'no null entry')
+
+
+def removal_contract():
+    """remove_index as the renumbering needs it: it only shrinks the list (C09 proves: the survivors keep their order), so a list in which every cell
+    is listed once and no entry is null stays one"""
+    def post(C):
+        n = C.new; V = C.arg('vector').ref
+        return [('no-null-entry', all_non_null(n, V)), ('every-cell-listed-once', listed_once(n, V)), ('length-nonneg', n.len(V) >= 0)]
+    fr = lambda C: [('vec.len', [C.arg('vector').ref]), ('vec.data.int', [C.arg('vector').ref]), ('vec.epoch', [C.arg('vector').ref])]
+    return Contract('remove_index', PROP, frame=fr, post=post, assumed=True,
+                    name='remove_index (writes only the vector it is given; a duplicate-free list of non-null cells stays one: subsequence, C09)')
+
+
+def inv_renumber(L):
+    if not L.st.ghost.get('popinv'): return []
+    lst = L.var('cell_lst').ref; k = L.var('local_cell_id')
+    cur = L.cur
+    return [('position-in-range', z3.And(k >= 0, k <= cur.len(lst))),
+            ('every-earlier-cell-has-its-position-as-index', QForall(lambda j: z3.Implies(z3.And(j >= 0, j < k), cur.f(cur.at(lst, j, 'int'), 'cell.local_id_') == j), 1, 'renumbered prefix'))]
+
+
+def post_popinv(C):
+    if C.outcome not in ('ret', None, 'end'): return []
+    n = C.new
+    lst = lv(C, 'cell_lst', C.post_state).ref
+    return [('after-a-removal-every-cell-has-its-list-position-as-position-index',
+             QForall(lambda j: z3.Implies(z3.And(j >= 0, j < n.len(lst)), n.f(n.at(lst, j, 'int'), 'cell.local_id_') == j), 1, 'POP-INV'))]
+
+
+def pre_popinv(C):
+    o = C.old
+    dl = lv(C, 'cells_to_delete_lst').ref; lst = lv(C, 'cell_lst').ref
+    return [('a-mother-was-scheduled-for-removal', o.len(dl) > 0), ('population-list-is-not-a-container-of-a-cell', not_owned_by_a_cell(C, lst)),
+            ('lists-are-distinct-objects', dl != lst)]
+
+
+def inv_renumber_solver(L):
+    if not L.st.ghost.get('popinv'): return []
+    cur = L.cur
+    lst = cur.sub(L.this.ref if hasattr(L.this, 'ref') else L.this, 'solver.cell_lst_'); k = L.var('local_cell_id')
+    return [('position-in-range', z3.And(k >= 0, k <= cur.len(lst))),
+            ('every-earlier-cell-has-its-position-as-index', QForall(lambda j: z3.Implies(z3.And(j >= 0, j < k), cur.f(cur.at(lst, j, 'int'), 'cell.local_id_') == j), 1, 'renumbered prefix'))]
+
+
+def pre_popinv_solver(C):
+    o = C.old
+    lst = o.sub(C.this, 'solver.cell_lst_')
+    return [('no-null-entry', all_non_null(o, lst)), ('every-cell-listed-once', listed_once(o, lst)), ('length-nonneg', o.len(lst) >= 0),
+            ('time-integrator-present', o.f(C.this, 'solver.time_integrator_ptr_') > 0)]
+
+
+def post_popinv_solver(C):
+    if C.outcome not in ('ret', None, 'end'): return []
+    n = C.new
+    lst = n.sub(C.this, 'solver.cell_lst_')
+    return [('at-the-end-of-an-iteration-every-cell-has-its-list-position-as-position-index',
+             QForall(lambda j: z3.Implies(z3.And(j >= 0, j < n.len(lst)), n.f(n.at(lst, j, 'int'), 'cell.local_id_') == j), 1, 'POP-INV'))]
+
+
 def remove_index_contract():
     def on_call(C, st):
         st.ghost['remove_index_calls'] = st.ghost.get('remove_index_calls', z3.IntVal(0)) + 1
@@ -149,9 +232,10 @@ def setup_solver(eng, st, args, this):
 
 
 def inv_counter(L):
-    s = L.st.ghost['solver']
+    s = L.st.ghost.get('solver')
     dl = L.var('cells_to_delete_lst').ref
     e0 = L.entry
+    if s is None: return [('removal-list-nonneg', L.cur.len(dl) >= 0)]          # cell_divider::run on its own (no caller in sight)
     return [('caller-counter-advances-by-two-per-scheduled-removal', L.cur.f(s, 'solver.max_cell_id_') == e0.f(s, 'solver.max_cell_id_') + 2 * L.cur.len(dl)),
             ('removal-list-nonneg', L.cur.len(dl) >= 0)]
 
@@ -178,6 +262,10 @@ def post_iter_renumber(C):
     return [('position-index-is-the-list-position', n.f(o.at(lst, k, 'int'), 'cell.local_id_') == k)]
 
 
+def havoc_nothing(qn):
+    return Contract(qn, PROP, frame=lambda C: [], name=qn + ' (a const getter of the time integrator)')
+
+
 def havoc(qn):
     return Contract(qn, PROP, frame=lambda C: [('*', None)], name=qn + ' (any effect)')
 
@@ -197,7 +285,11 @@ def build(reg, cfg):
     reg.add(Contract('cell_divider::run', PROP, pre=pre_renumber_body, post=post_renumber_body, slice_loop=1, safety={'bounds'},
                      name='cell_divider::run::<renumbering loop body>'))
     reg.add_loop(LoopContract('cell_divider::run', 0, inv_counter, modifies=['*']))
-    reg.add_loop(LoopContract('cell_divider::run', 1, lambda L: [], modifies=['cell.local_id_']))
+    reg.add(Contract('cell_divider::run', PROP, post=post_divider_structure, prefix_loop=1, use=[divide_contract(), remove_index_contract()],
+                     name='cell_divider::run::<removal then renumbering from position 0>'))
+    reg.add_loop(LoopContract('cell_divider::run', 1, inv_renumber, modifies=['cell.local_id_']))
+    reg.add(Contract('cell_divider::run', PROP, pre=pre_popinv, post=post_popinv, suffix_loop=1, setup=setup_popinv, use=[removal_contract()], safety={'bounds'},
+                     name='cell_divider::run::<from the removal to the end: every position index is the list position>'))
     reg.add(Contract('solver::run_iteration', PROP, post=post_counter, prefix_loop=0, setup=setup_solver,
                      use=[save_mesh_contract(), divide_contract(), remove_index_contract()], name='solver::run_iteration::<division step, id counter>'))
     reg.add(Contract('solver::run_iteration', PROP, pre=pre_iter_renumber, post=post_iter_renumber, slice_loop=3, safety={'bounds'},
@@ -207,6 +299,10 @@ def build(reg, cfg):
                              'time_integration_scheme::update_nodes_positions')]
     for k in range(3):
         reg.add_loop(LoopContract('solver::run_iteration', k, lambda L: [], modifies=['*']))
+    reg.add_loop(LoopContract('solver::run_iteration', 3, inv_renumber_solver, modifies=['cell.local_id_']))
+    reg.add(Contract('solver::run_iteration', PROP, pre=pre_popinv_solver, post=post_popinv_solver, suffix_loop=3, setup=setup_popinv, safety={'bounds'},
+                     use=[havoc_nothing('time_integration_scheme::is_step_tmp'), havoc_nothing('time_integration_scheme::get_simulation_time')],
+                     name='solver::run_iteration::<from the renumbering loop to the end: every position index is the list position>'))
     reg.add(Contract('solver::run_iteration', PROP, post=post_iter_structure, prefix_loop=3, use=hv,
                      name='solver::run_iteration::<removal then renumbering>'))
     # contact couplings store (position index of the partner cell, node id): the C07 contract of the per-pair rule
@@ -228,8 +324,14 @@ EXPLANATION = ("Contracts on the places where identities are created and where t
                "(loop invariant on the solver's own field, so a counter passed by value is refuted) and never decreases; after the removal of "
                "small cells the renumbering loop is entered (structure contract) and its body re-establishes local_id_ == position; the "
                "per-pair contact rule stores (position index of the partner cell, node id of a node of the visited face) as coupling (C07 "
-               "contract re-run). Ids are unique and never reused because every id handed out is the current value of a counter that only grows.")
+               "contract re-run). Ids are unique and never reused because every id handed out is the current value of a counter that only grows. "
+               "Whole-list form of POP-INV (loop invariants, not only an arbitrary iteration): cell_divider::run from the removal of the mothers to "
+               "its end, and solver::run_iteration from its renumbering loop to its end, started in an arbitrary state in which every cell is "
+               "listed once and no entry is null: the loop starts at position 0, keeps 'every earlier cell has its position as index' and on "
+               "exit every cell of the list has local_id_ == its position (so a loop that starts later, stops earlier or skips is refuted); "
+               "cell_divider::run up to the renumbering loop: the loop follows the single remove_index call and starts at position 0.")
 ASSUMPTIONS = ["divide_cell returns nullopt or two fresh cells and does not touch the population list (C09)",
+               "remove_index leaves a list in which every cell is listed once and no entry is null (it only shrinks the list: C09 proves that the survivors keep their order); the population list has that form before the removal (cells are appended once: constructor loop / daughters)",
                "std::remove_if/erase and remove_index shrink the list without inserting (standard / own contract); save_mesh writes only file_number_ and files",
                "sequential semantics of the parallel division loop (the push_back inside '#pragma omp parallel for' is a data race: C15, not applicable)",
                "virtual calls are dispatched over every class of the AST that can be the dynamic type (closed world)"]
